@@ -304,6 +304,47 @@ def perturb_recovery(m, seed):
     return out
 
 
+def shortest_arc(m, pairs):
+    """pairs: list of (ia, ib, Rel integer matrix, trace) from Attitude.tla (kind "pair").  Two-row tables holding the level
+    attitudes A and B (and other columns) are resampled at 1/4, 1/2, 3/4 of the interval: the attitude there must be D_t A with
+    (D_t)^(1/t) = B A' about the same axis (trace(D_t) >= 1: the SHORT way) - the geodesic, whatever Euler angles it has."""
+    pd, T = m["pd"], m["transform"]
+    ANG = {0: 0.0, 1: 90.0, 2: 180.0, 3: -90.0}
+    out = []
+    cols_sets = (['VN', 'roll', 'pitch', 'heading'], ['lat', 'lon', 'alt', 'VN', 'VE', 'VD', 'roll', 'pitch', 'heading'], ['heading', 'pitch', 'roll', 'VN'])
+    for k, (ia, ib, Rel, tr) in enumerate(pairs):
+        if tr == -1:
+            continue                  # a half turn: the shortest arc is not unique, nothing is demanded
+        Rel = np.array(Rel, float)
+        ra, ha, rb, hb = ANG[ia % 4], ANG[ia // 4], ANG[ib % 4], ANG[ib // 4]
+        A = T.mat_from_rph([ra, 0.0, ha])
+        cols = cols_sets[k % 3]
+        base = dict(lat=50.0, lon=30.0, alt=100.0, VN=1.0, VE=-2.0, VD=0.5, pitch=0.0)
+        t0 = (0.0, 345600.0)[k % 2]
+        rows = []
+        for r_, h_, dv in ((ra, ha, 0.0), (rb, hb, 8.0)):
+            d = dict(base, roll=r_, heading=h_); d["VN"] += dv
+            rows.append([d[c] for c in cols])
+        tab = pd.DataFrame(rows, index=[t0, t0 + 4.0], columns=cols)
+        try:
+            Rs = T.resample_state(tab, [t0 + 1.0, t0 + 2.0, t0 + 3.0])
+            for j, (t, power, target) in enumerate(((0.25, 4, Rel), (0.5, 2, Rel), (0.75, 4, Rel @ Rel @ Rel))):
+                Mt = T.mat_from_rph(Rs.iloc[j][['roll', 'pitch', 'heading']].values.astype(float))
+                D = Mt @ A.T
+                P = np.linalg.matrix_power(D, power)
+                if np.abs(P - target).max() > 1e-9 or np.trace(D) < 1.0 - 1e-9:
+                    out.append("resample_state does not follow the shortest rotation between (roll %g, heading %g) and (roll %g, heading %g): at %g of the interval it "
+                               "returns rph %s (the geodesic point D A has D^%d = %s)" % (ra, ha, rb, hb, t, np.round(Rs.iloc[j][['roll', 'pitch', 'heading']].values.astype(float), 4).tolist(),
+                                                                                            power, "B A'" if j < 2 else "(B A')^3"))
+                    break
+                if abs(float(Rs.iloc[j]['VN']) - (1.0 + 8.0 * t)) > 1e-12:
+                    out.append("resample_state: column VN is not interpolated linearly next to attitude columns (%r at %g)" % (float(Rs.iloc[j]['VN']), t))
+                    break
+        except Exception as e:
+            out.append("resample_state raised %s: %s on a two-row attitude table" % (type(e).__name__, str(e)[:100]))
+    return out
+
+
 def check(rep, pid, tier, seed):
     kn = known.load()
     rep.assumptions += [
@@ -381,6 +422,22 @@ def check(rep, pid, tier, seed):
         for p in wrap_forms(m, table):
             rep.violation("C18 " + p, dict(kind="wrap"), key=p[:40])
         rep.traces += 1
+    ar = tlc.run_tlc("Attitude", dict(spec="Spec", invariants=["Proper", "PairAngles"]), workers=2, timeout=900, heap="2g")
+    rep.add_tlc("Attitude[pairs of level attitudes: the rotation the interpolation has to traverse]", ar)
+    if not ar.ok:
+        rep.machinery("leg M: Attitude violates %s" % ar.violated)
+    pairs = []
+    for l in ar.prints:
+        v = tlc.parse_value(l)
+        if isinstance(v, tuple) and v and v[0] == "ATT" and v[1] == "pair":
+            pairs.append((v[2], v[3], [list(x) for x in v[5]], v[6][0]))
+    if len(pairs) != 256:
+        rep.machinery("Attitude printed %d attitude pairs, expected 256" % len(pairs))
+    for p in shortest_arc(m, pairs):
+        rep.violation("C18 " + p, dict(kind="arc"), key=p[:40])
+    rep.extra["shortest_arc_pairs"] = dict(total=len(pairs), judged=sum(1 for q in pairs if q[3] != -1))
+    rep.traces += len(pairs)
+    rep.evaluations += len(pairs)
     for p in perturb_recovery(m, seed):
         rep.violation("C18 " + p, dict(kind="perturb"), key=p[:40])
     rep.traces += 40
@@ -403,6 +460,15 @@ def replay(rep, pid, case):
                 rep.violation("C18 " + text, case)
     elif case["kind"] == "perturb":
         for p in perturb_recovery(m, rep.seed):
+            rep.violation("C18 " + p, case)
+    elif case["kind"] == "arc":
+        ar = tlc.run_tlc("Attitude", dict(spec="Spec", invariants=["Proper", "PairAngles"]), workers=2)
+        pairs = []
+        for l in ar.prints:
+            v = tlc.parse_value(l)
+            if isinstance(v, tuple) and v and v[0] == "ATT" and v[1] == "pair":
+                pairs.append((v[2], v[3], [list(x) for x in v[5]], v[6][0]))
+        for p in shortest_arc(m, pairs):
             rep.violation("C18 " + p, case)
     else:
         wr = tlc.run_tlc("WrapTable", dict(spec="Spec"), workers=1)
